@@ -41,7 +41,8 @@ ASSUMPTIONS = ["only the filled part of the data arrays is compared (unwritten "
 BUFS = ["ReplayBuffer", "LAP", "PrioritizedReplayBuffer", "Sub", "SubPER",
         "Multi:ReplayBuffer", "Multi:LAP", "Multi:SubPER"]
 MODS = ["mlp", "gaussian", "layernorm", "doubleq", "sale", "encoder_policy",
-        "ensemble", "tanh_policy", "gaussian_tanh", "mt_q", "mt_encoder_policy"]
+        "ensemble", "tanh_policy", "gaussian_tanh", "mt_q", "mt_encoder_policy",
+        "deep_mlp"]
 
 
 def gen_cases(tier, seed):
@@ -279,7 +280,7 @@ def run_buffer(case):
 
 
 # ----------------------------------------------------------------- modules
-def make_module(kind, rng):
+def make_module(kind, rng, other_space=False):
     import gymnasium as gym
     from flax import nnx
 
@@ -292,8 +293,15 @@ def make_module(kind, rng):
     r = nnx.Rngs(int(rng.integers(10000)))
     space = gym.spaces.Box(np.array([-1.0, 0.0], np.float32),
                            np.array([2.0, 3.0], np.float32))
+    if other_space:
+        # a template built for another action range: a reload must take every
+        # variable from the saved model, not from the template
+        space = gym.spaces.Box(np.array([-1.0, -1.0], np.float32),
+                               np.array([1.0, 1.0], np.float32))
     if kind == "mlp":
         return MLP(3, 2, [5, 4], "relu", r), "x3"
+    if kind == "deep_mlp":  # more than ten entries in a layer list
+        return MLP(3, 2, [4, 5, 6, 4, 5, 6, 4, 5, 6, 4, 5, 6], "tanh", r), "x3"
     if kind == "gaussian":
         return GaussianMLP(bool(rng.integers(2)), 3, 2, [5], "tanh", r), "x3"
     if kind == "layernorm":
@@ -415,10 +423,12 @@ def run_module(case):
                             path, m)
             if not ok:
                 return res
-            fresh, _ = make_module(mod_kind, np.random.default_rng(case["seed"] + 5))
-            if mod_kind == "gaussian":
+            fresh, _ = make_module(mod_kind, np.random.default_rng(case["seed"] + 5),
+                                   other_space=True)
+            if mod_kind in ("gaussian", "gaussian_tanh"):
                 # same head layout as the saved module
-                fresh, _ = make_module(mod_kind, np.random.default_rng(case["seed"]))
+                fresh, _ = make_module(mod_kind, np.random.default_rng(case["seed"]),
+                                       other_space=True)
             ok, m2 = guarded(res, f"C19/orbax_restore_fails/{mod_kind}",
                              restore_checkpoint, path, fresh)
             if not ok:
